@@ -6,6 +6,8 @@
 (* bit sequences), Hilbert with k <= 10, and the storage-size law.          *)
 EXTENDS Layout, TLC, Json, IOUtils
 
+Lm == INSTANCE Limbs
+
 Log == ndJsonDeserialize(IOEnv.VF_TRACE)
 
 VARIABLES l
@@ -17,6 +19,14 @@ IsEvent(e) == l <= Len(Log) /\ Log[l].e = e /\ l' = l + 1
 TRow == /\ IsEvent("row")
         /\ Log[l].idx = RowMajorRef(Log[l].ext, Log[l].c)
         /\ Log[l].idx < Prod(Log[l].ext)
+
+\* {e:"rowbig", ext:[8 limbs each], c:[8 limbs each], idx:[8 limbs]} : row-major with extents whose product exceeds 2^32 (up to
+\* 2^63), everything as 8-bit limbs; position = Horner form, computed with limb arithmetic
+RECURSIVE HornerL(_, _, _, _)
+HornerL(ext, c, k, acc) == IF k > Len(ext) THEN acc ELSE HornerL(ext, c, k + 1, Lm!Add(Lm!Mul(acc, ext[k]), c[k]))
+TRowBig == /\ IsEvent("rowbig")
+           /\ \A k \in 1..Len(Log[l].ext) : Lm!IsLimbs(Log[l].ext[k], 8) /\ Lm!IsLimbs(Log[l].c[k], 8) /\ Lm!Less(Log[l].c[k], Log[l].ext[k])
+           /\ Log[l].idx = HornerL(Log[l].ext, Log[l].c, 1, Lm!Zero(8))
 
 \* {e:"mortonbits", n, c:[[64 bits]...], idx:[64 bits]} : pure interleave on bit sequences
 TMortonBits ==
@@ -52,7 +62,7 @@ THCount == /\ IsEvent("hcount")
            /\ Log[l].min = 0 /\ Log[l].max = 4 ^ Log[l].k - 1
            /\ Log[l].origin = 0
 
-TNext == TRow \/ TMortonBits \/ TMorton \/ THilbert \/ THWalk \/ THCount
+TNext == TRow \/ TRowBig \/ TMortonBits \/ TMorton \/ THilbert \/ THWalk \/ THCount
 TSpec == TInit /\ [][TNext]_tvars
 
 Accepted == IF TLCGet("stats").diameter - 1 = Len(Log)
